@@ -102,6 +102,8 @@ std::vector<ld> reference_value_conditions(ChkptView const& v);
 
 // the canonical number libstdc++ makes of one 64 bit raw output for numeric type nt
 ld canonical_from_raw64(int nt, u64 raw);
+// non-zero and far enough from both ends of the exponent range of the numeric type for relative tolerances
+bool in_exponent_range(int nt, ld v);
 
 // the first iteration samples with the user's state or the uniform default (C19)
 void oracle_c19_first(Plan const& p, IWorld const& world, ChkptView const& v, Report& rep);
